@@ -467,7 +467,17 @@ func (w *World) trSpecCall(e *SExpr, env *SpecEnv) *Val {
 	}
 	// composite constructors: Point{..} not supported; use mkPoint(x,y) etc via named DT
 	if strings.HasPrefix(name, "mk") {
-		if s, gt := w.tryType(pkg, strings.TrimPrefix(name, "mk")); s != nil && s.Kind == KDT {
+		s, gt := w.tryType(pkg, strings.TrimPrefix(name, "mk"))
+		if s == nil || s.Kind != KDT {
+			// value-struct constructors are found in any package of the module (mkRect, mkPoint from package geojson)
+			for _, p := range []string{"geometry", "geo", "geojson"} {
+				if s2, gt2 := w.tryType(p, strings.TrimPrefix(name, "mk")); s2 != nil && s2.Kind == KDT {
+					s, gt = s2, gt2
+					break
+				}
+			}
+		}
+		if s != nil && s.Kind == KDT {
 			ts := make([]*Term, len(args))
 			for i, a := range args {
 				ts[i] = coerceTo(w.trSpec(a, env), s.Fields[i].S)
